@@ -1224,7 +1224,7 @@ func (e *Env) call(n *ast.CallExpr) Value {
 			return e.fail("isfunc needs (function value, string literal)")
 		}
 		suf, _ := strconv.Unquote(lit.Value)
-		return BoolC(fv.Fn != nil && strings.HasSuffix(fv.Fn.String(), suf))
+		return BoolC(fv.Fn != nil && strings.HasSuffix(canonFn(fv.Fn.String()), suf))
 	case "lastArg":
 		// lastArg("pattern", k): k-th argument (receiver first) of the most recent call matching the pattern
 		lit, ok := n.Args[0].(*ast.BasicLit)
